@@ -86,6 +86,10 @@ func FieldsFromStruct(t reflect.Type) TypesTable {
 		// ... as the struct's own fields hide them, wherever they are declared.
 		for i := 0; i < t.NumField(); i++ {
 			f := t.Field(i)
+			if f.PkgPath != "" {
+				continue // Unexported fields cannot be fetched.
+			}
+
 			types[f.Name] = Tag{Type: f.Type}
 		}
 	}
